@@ -377,3 +377,43 @@ def gen_illtyped(rng, g: Gen):
         # wrapped in a try so that catchability is exercised as well
         t = bi('ㅅㄷ', t, fundef(arg(0)))
     return t
+
+
+# ---- "wild" generator: untyped, scope-aware, every syntactic form ------------------------------------------
+
+TYPICAL_ARITY = {"ㄱ": [2, 3], "ㄷ": [2, 3], "ㅅ": [2, 3], "ㄴㄴ": [2], "ㄴㅁ": [2], "ㄷㅂ": [0, 1, 2], "ㅁㄹ": [0, 1, 2, 3], "ㅁㅈ": [0, 1],
+                 "ㅂㄱ": [0], "ㅂㅅ": [2], "ㅅㅅ": [1], "ㅅㅈ": [0, 2, 4], "ㅈㅅ": [1, 2], "ㄷㅈ": [1], "ㅅㄷ": [2], "ㄴㄱ": [0, 1, 2], "ㅁㅂ": [1],
+                 "ㅂㅂ": [1], "ㄹ": [0], "ㅈㄹ": [1], "ㄱㅅ": [1], "ㄱㄹ": [2, 3], "ㄱㄴ": [2], "ㄴ": [2, 3], "ㅁ": [1], "ㅈ": [2], "ㅈㅈ": [0],
+                 "ㄱㅈ": [0], "ㅈㄷ": [1], "ㅂㅈ": [2, 3, 4], "ㅁㄷ": [2], "ㅅㅂ": [2], "ㅅㄹ": [2, 3], "ㅂㄹ": [1, 2], "ㄱㅁ": [1, 2]}
+
+
+def wild(rng, depth, nframes=0):
+    """an arbitrary expression: literals, argument references (positions / frames in and slightly out of range, positive
+    and negative, computed positions), function references (any index), definitions, immediately applied definitions,
+    built-ins at typical and untypical arities, values of every kind as callees.  Mostly terminates (laziness, small
+    numbers); the model is the oracle for everything that comes out, errors included."""
+    c = rng.random()
+    if depth <= 0 or c < 0.22:
+        k = rng.random()
+        if k < 0.45 or nframes == 0 and k < 0.7:
+            return lit(rng.choice([0, 1, 2, 3, -1, 5, 10, -7]))
+        if k < 0.8 and nframes > 0:
+            pos = rng.choice([0, 0, 0, 1, 1, 2, -1, 3])
+            rel = rng.choice(list(range(0, nframes)) * 3 + [nframes, -1, -nframes, -nframes - 1])
+            return arg(pos, rel)
+        if k < 0.9:
+            return funref(rng.choice([0, 0, 1, -1, 2, -2, nframes, -nframes - 1]))
+        return bi(rng.choice(["ㅁㄹ", "ㅁㅈ", "ㅂㄱ", "ㅈㅈ", "ㄱㅈ", "ㅅㅈ", "ㄷㅂ"]))
+    if c < 0.32:
+        return fundef(wild(rng, depth - 1, nframes + 1))
+    if c < 0.50:
+        n = rng.randint(0, 3)
+        return call(fundef(wild(rng, depth - 1, nframes + 1)), *[wild(rng, depth - 1, nframes) for _ in range(n)])
+    if c < 0.88:
+        name = rng.choice(BUILTIN_NAMES)
+        ar = rng.choice(TYPICAL_ARITY.get(name, [1, 2])) if rng.random() < 0.85 else rng.randint(0, 4)
+        return bi(name, *[wild(rng, depth - 1, nframes) for _ in range(ar)])
+    if c < 0.93 and nframes > 0:
+        return arg(wild(rng, depth - 1, nframes), rng.randrange(nframes))          # computed position
+    n = rng.randint(0, 2)
+    return call(wild(rng, depth - 1, nframes), *[wild(rng, depth - 1, nframes) for _ in range(n)])
